@@ -12,7 +12,7 @@ does on a healthy file) / a loop ran out of fuel.
 Bottom primitives (hand-written here; everything above them is generated):
 `seek`, `seekEnd`, `seekCur`, `seekBack`, `seekPosition`, `readU8`, `writeU8`, `readU64Le`, `writeU64Le`, `writeZero`,
 `readVu64`, `writeVu64`, `writeBytes` (`write_all`), `readBytes` (`read_exact_maybeslice`), `readPad` (`read_exact` into a
-local array: std's default loop over rabuf's `read`), `setLen` (`set_len`).
+local array: std's default loop over rabuf's `read`), `setLen` (`set_len`), `readFill` (`read_fill_buffer` of the buffer).
 
 `readU8` / `readU64Le` (the `SmallRead` fast paths `read_u8`, `read_u64_le`) do **not** fail at the end of the
 file: they do not look at it (`RaBuf.readSmall`), what they find beyond it is the zero padding of the chunk.
@@ -119,5 +119,16 @@ def writeVu64 (v : Nat) : M Unit := writeBytes (Vu64.encode v)
 
 /-- number of bytes of the file (used as loop fuel: a free list has fewer slots than the file has bytes) -/
 def fileLen : M Nat := fun s => some (s.bytes.length, s)
+
+/-- `read_fill_buffer()` of the buffer (rabuf 0.1.20 `BufFile::read_fill_buffer`, lib.rs 87–101): `self.seek(SeekFrom::End(0))?`,
+then `fetch_chunk` for the offsets 0, chunk size, 2 × chunk size, … until the end of the file is passed or the buffer is full.
+In the flat-file view: the cursor goes to the end of the file and every byte stays what it is — which chunks are resident (loaded,
+written back, evicted on the way) is not part of the view.
+ASSUMPTION (the same as for every primitive of this file, `RaBuf.run_refines_flat`): the buffered file behaves like the flat byte
+array.  For this call it is proved on the chunk-level model: `RaBuf.readFillBuffer_flat` (`Abyss/Lemmas/ReadFillL.lean`) — when
+`RaBuf.readFillBuffer` returns (`Ok`, or `Err` under a fault schedule), the flat view of the buffer is this function's result.  Not
+modelled: an I/O error of a chunk load / write-back (`Err`: the flat file is the same, the value differs) and a call that does
+not return (the known finding `C07:permille-hang`, excluded for the configurations the crate produces). -/
+def readFill : M Unit := fun s => some ((), { s with pos := s.bytes.length })
 
 end Abyss.FileM
